@@ -91,7 +91,8 @@ def one(ctx, i, tmproot):
         via = "cli" if i % 11 == 5 else "api"
         before_src = {k: (open(f).read() if os.path.exists(f) else None) for k, f in p.files.items()}
         base = {"op": OP, "truth": truth, "method": method, "via": via, "pre_states": sorted(set(pre.values())),
-                "truth_func_before": p.features.get(truth + "_func_before", False)}
+                "truth_func_before": p.features.get(truth + "_func_before", False),
+                "some_file_has_param_named_like_target": p.features.get("some_file_has_param_named_like_target", False)}
         replay = {"case": i, "seed": ctx.seed, "tier": ctx.tier, "pre": pre, "files": before_src}
         def sync_and_judge(before_src, base, replay, phase):
             base = dict(base, phase=phase)
@@ -129,6 +130,16 @@ def one(ctx, i, tmproot):
                 # anything appended with the target's simple name is "the definition that was added"
                 a_top = [s for s in a_top if not (isinstance(s, (ast.FunctionDef, ast.ClassDef)) and s.name == DEF_NAME[kind]
                                                   and ast.dump(_norm(s)) not in _dumps(b_top, False))]
+                # ... but a definition that existed beforehand is replaced where it stands, not joined by a second one
+                if "." not in p.names[kind]:
+                    def _count(tree):
+                        return sum(1 for s in tree.body if isinstance(s, (ast.FunctionDef, ast.ClassDef)) and s.name == DEF_NAME[kind])
+                    nb, na = _count(b_tree), _count(a_tree)
+                    ctx.event("definition_counts_compared")
+                    if nb >= 1 and na != nb:
+                        ctx.report(dict(tb, field="top_level_statements", tag="definition_duplicated", expected=str(nb), observed=str(na),
+                                        param_named_like_target_before=p.features.get(kind + "_param_named_like_target_before", False)),
+                                   dict(replay, after=after_src))
                 db, da = _dumps(b_top), _dumps(a_top)
                 if db != da:
                     tag = "reordered" if sorted(db) == sorted(da) else ("dropped" if len(da) < len(db) else ("added" if len(da) > len(db) else "changed"))
